@@ -1480,7 +1480,8 @@ func (q *WildcardQuery) Searcher(i search.Reader, options search.SearcherOptions
 		field = options.DefaultSearchField
 	}
 
-	regexpString := wildcardRegexpReplacer.Replace(q.wildcard)
+	// (?s): '*' and '?' stand for any character, a newline included
+	regexpString := "(?s)" + wildcardRegexpReplacer.Replace(q.wildcard)
 
 	return searcher.NewRegexpStringSearcher(i, regexpString, field,
 		q.boost.Value(), q.scorer, similarity.NewCompositeSumScorer(), options)
